@@ -176,7 +176,9 @@ class ConstParam(ParameterBase):
 
     def with_idx(self, idx: int) -> "ConstParam":
         """Returns a copy of the parameter with a new index."""
-        return ConstParam(idx, self.name, self.ty)
+        return ConstParam(
+            idx, self.name, self.ty, from_comptime_arg=self.from_comptime_arg
+        )
 
     def check_arg(self, arg: Argument, loc: AstNode | None = None) -> ConstArg:
         """Checks that this parameter can be instantiated with a given argument.
